@@ -207,6 +207,25 @@ def configs(rng, quick, terminals):
                         "opts": {"num_iter": 6, "formulation": "pressure", "linear_solver": "direct", "L": 1.0 if method == "bregman" else 1e-2,
                                  "tol_residual": 0.0, "tol_increment": 0.0, "tol_distance": 0.0},
                         "mass": "dense", "mseed": 7, "fault": f, "adaptive": False, "weight": None})
+    # stagnation: on a one-cell-thin grid the flux is unique, so the iteration reaches its fixed point after one step; with
+    # the stopping criteria switched off Anderson acceleration then sees increments that differ by round-off only
+    # (fixed a16df87: the degenerate least-squares mix perturbed the flux by O(1))
+    for (form, ls) in solvers:
+        for method in ("newton", "bregman"):
+            for (shape, h) in (((1, 5), [0.1, 0.3]), ((6, 1), [1.0, 2.0])):
+                opts = {"num_iter": rng.choice([2, 3, 4]), "formulation": form, "linear_solver": ls, "L": 1.0 if method == "bregman" else 1e-2,
+                        "tol_residual": 0.0, "tol_increment": 0.0, "tol_distance": 0.0, "aa_depth": rng.choice([1, 3])}
+                if ls in ("amg", "cg"):
+                    opts["linear_solver_options"] = {"atol": 1e-13, "rtol": 1e-13, "maxiter": 600}
+                out.append({"shape": list(shape), "h": h, "method": method, "l1": rng.choice(l1s), "mob": rng.choice(mobs), "opts": opts,
+                            "mass": rng.choice(["compact", "single", "dense"]), "mseed": rng.randrange(10 ** 6), "fault": None,
+                            "adaptive": False, "weight": None})
+    # the recorded instance of that defect (thorough tier, seed 0), ending right after the perturbed iterate
+    for ni, fault in ((2, None), (6, 2)):
+        out.append({"shape": [1, 5], "h": [0.1, 0.3], "method": "newton", "l1": "CONSTANT_SUBCELL_PROJECTION", "mob": "CELL_BASED",
+                    "opts": {"num_iter": ni, "formulation": "pressure", "linear_solver": "cg", "L": 0.01, "tol_residual": 0.0, "tol_increment": 0.0,
+                             "tol_distance": 0.0, "linear_solver_options": {"atol": 1e-13, "rtol": 1e-13, "maxiter": 600}, "aa_depth": 3},
+                    "mass": "single", "mseed": 799275, "fault": fault, "adaptive": False, "weight": None})
     return out
 
 
